@@ -177,10 +177,16 @@ func (i *Ident) SQL() string {
 	return i.Name
 }
 
-func (b *BinaryExpression) SQL() string {
-	if b == nil {
-		return ""
-	}
+// binaryParts describes how one BinaryExpression is written around its left
+// operand: prefix + left + suffix, where left gets parentheses when it binds
+// looser than leftMin.
+type binaryParts struct {
+	prefix, suffix string
+	leftMin        int
+}
+
+// parts renders everything of b except its left operand.
+func (b *BinaryExpression) parts() binaryParts {
 	op := b.Operator
 	if b.CustomOp != nil {
 		op = b.CustomOp.String()
@@ -196,34 +202,77 @@ func (b *BinaryExpression) SQL() string {
 		leftMin = prec + 1
 	}
 
-	// NOT EXISTS (...) is recorded as {Left: EXISTS, Operator: "NOT", Right: nil, Not: true}.
-	// Handled before the operands are rendered: rendering Left twice per level would make
-	// nested NOT EXISTS cost 2^depth.
-	if b.Right == nil && upperOp == "NOT" {
-		return "NOT " + operandSQL(b.Left, precNot)
-	}
-
-	left := operandSQL(b.Left, leftMin)
-	right := operandSQL(b.Right, rightMin)
-
 	if upperOp == "IS NULL" || upperOp == "IS NOT NULL" {
 		if b.Not && upperOp == "IS NULL" {
 			// the parser records IS NOT NULL as Operator "IS NULL" with Not set
-			return fmt.Sprintf("%s IS NOT NULL", left)
+			return binaryParts{suffix: " IS NOT NULL", leftMin: leftMin}
 		}
-		return fmt.Sprintf("%s %s", left, upperOp)
+		return binaryParts{suffix: " " + upperOp, leftMin: leftMin}
 	}
 
+	right := operandSQL(b.Right, rightMin)
 	if b.Not {
 		switch upperOp {
 		case "LIKE", "ILIKE", "SIMILAR TO":
-			return fmt.Sprintf("%s NOT %s %s", left, upperOp, right)
+			return binaryParts{suffix: " NOT " + upperOp + " " + right, leftMin: leftMin}
 		default:
-			return fmt.Sprintf("NOT (%s %s %s)", left, op, right)
+			return binaryParts{prefix: "NOT (", suffix: " " + op + " " + right + ")", leftMin: leftMin}
 		}
 	}
+	return binaryParts{suffix: " " + op + " " + right, leftMin: leftMin}
+}
 
-	return fmt.Sprintf("%s %s %s", left, op, right)
+// isNotExistsShape reports the node shape the parser uses for NOT EXISTS (...):
+// {Left: EXISTS, Operator: "NOT", Right: nil, Not: true}.
+func (b *BinaryExpression) isNotExistsShape() bool {
+	return b.Right == nil && strings.EqualFold(b.Operator, "NOT") && b.CustomOp == nil
+}
+
+func (b *BinaryExpression) SQL() string {
+	if b == nil {
+		return ""
+	}
+	if b.isNotExistsShape() {
+		return "NOT " + operandSQL(b.Left, precNot)
+	}
+
+	// Operator chains (a OR b OR c ..., a + b + c ...) are parsed into a tree that is
+	// as deep on the left as the chain is long. Walking that spine in a loop and
+	// writing into one builder keeps the cost linear; rendering each level as
+	// left + op + right would copy the text of the whole left side once per level.
+	var spine []binaryParts
+	var parens []bool // parens[i]: the left operand of spine[i] is parenthesised
+	cur := b
+	var leaf Expression
+	for {
+		p := cur.parts()
+		spine = append(spine, p)
+		next, ok := cur.Left.(*BinaryExpression)
+		if !ok || next == nil || next.isNotExistsShape() {
+			leaf = cur.Left
+			parens = append(parens, false) // operandSQL decides for the leaf
+			break
+		}
+		parens = append(parens, exprPrecedence(next) < p.leftMin)
+		cur = next
+	}
+
+	sb := getBuilder()
+	defer putBuilder(sb)
+	for i, p := range spine {
+		sb.WriteString(p.prefix)
+		if parens[i] {
+			sb.WriteByte('(')
+		}
+	}
+	sb.WriteString(operandSQL(leaf, spine[len(spine)-1].leftMin))
+	for i := len(spine) - 1; i >= 0; i-- {
+		if parens[i] {
+			sb.WriteByte(')')
+		}
+		sb.WriteString(spine[i].suffix)
+	}
+	return sb.String()
 }
 
 // Expression precedence levels used when serialising, mirroring the parser's
@@ -340,7 +389,30 @@ func (c *CastExpression) SQL() string {
 	if c == nil {
 		return ""
 	}
-	return fmt.Sprintf("CAST(%s AS %s)", exprSQL(c.Expr), c.Type)
+	// x::a::b::c is a CastExpression nested once per cast; write the chain in a loop
+	// (see BinaryExpression.SQL) instead of re-copying the inner text at every level.
+	var types []string
+	cur := c
+	for {
+		types = append(types, cur.Type)
+		next, ok := cur.Expr.(*CastExpression)
+		if !ok || next == nil {
+			break
+		}
+		cur = next
+	}
+	sb := getBuilder()
+	defer putBuilder(sb)
+	for range types {
+		sb.WriteString("CAST(")
+	}
+	sb.WriteString(exprSQL(cur.Expr))
+	for i := len(types) - 1; i >= 0; i-- {
+		sb.WriteString(" AS ")
+		sb.WriteString(types[i])
+		sb.WriteByte(')')
+	}
+	return sb.String()
 }
 
 func (c *CaseExpression) SQL() string {
@@ -542,11 +614,29 @@ func (a *ArraySubscriptExpression) SQL() string {
 	if a == nil {
 		return ""
 	}
-	s := operandSQL(a.Array, precPrimary)
-	for _, idx := range a.Indices {
-		s += "[" + exprSQL(idx) + "]"
+	// a[1][2][3] may be one node with several indices or nodes nested on Array;
+	// either way write it in a loop (see BinaryExpression.SQL).
+	var chain []*ArraySubscriptExpression
+	cur := a
+	for {
+		chain = append(chain, cur)
+		next, ok := cur.Array.(*ArraySubscriptExpression)
+		if !ok || next == nil {
+			break
+		}
+		cur = next
 	}
-	return s
+	sb := getBuilder()
+	defer putBuilder(sb)
+	sb.WriteString(operandSQL(cur.Array, precPrimary))
+	for i := len(chain) - 1; i >= 0; i-- {
+		for _, idx := range chain[i].Indices {
+			sb.WriteByte('[')
+			sb.WriteString(exprSQL(idx))
+			sb.WriteByte(']')
+		}
+	}
+	return sb.String()
 }
 
 func (a *ArraySliceExpression) SQL() string {
@@ -988,13 +1078,31 @@ func (s *SetOperation) SQL() string {
 	if s == nil {
 		return ""
 	}
-	left := stmtSQL(s.Left)
-	right := stmtSQL(s.Right)
-	op := s.Operator
-	if s.All {
-		op += " ALL"
+	// A UNION b UNION c ... nests once per operator on the left; write the chain in
+	// a loop (see BinaryExpression.SQL).
+	var chain []*SetOperation
+	cur := s
+	for {
+		chain = append(chain, cur)
+		next, ok := cur.Left.(*SetOperation)
+		if !ok || next == nil {
+			break
+		}
+		cur = next
 	}
-	return fmt.Sprintf("%s %s %s", left, op, right)
+	sb := getBuilder()
+	defer putBuilder(sb)
+	sb.WriteString(stmtSQL(cur.Left))
+	for i := len(chain) - 1; i >= 0; i-- {
+		sb.WriteByte(' ')
+		sb.WriteString(chain[i].Operator)
+		if chain[i].All {
+			sb.WriteString(" ALL")
+		}
+		sb.WriteByte(' ')
+		sb.WriteString(stmtSQL(chain[i].Right))
+	}
+	return sb.String()
 }
 
 func (v *Values) SQL() string {
